@@ -259,7 +259,7 @@ def compare_groups(cases):
                     c.result.world.tag += " (equal after re-running to idle)"
     return cases
 
-EXTRA_MODULES = {"C14": ["TB.Props.C14run"], "C03": ["TB.Props.C03frame"], "C17": ["TB.Props.C17run"], "C01": ["TB.Props.C01bytes"], "C11": ["TB.Props.C01bytes", "TB.Props.C04h", "TB.Props.C04hist"], "C02": ["TB.Props.C02run"], "C16": ["TB.Props.C16run", "TB.Props.C16total"], "C04": ["TB.Props.C04a", "TB.Props.C04c", "TB.Props.C04h", "TB.Props.C04hist"], "C15": ["TB.Props.C04a", "TB.Props.C04c"]}
+EXTRA_MODULES = {"C14": ["TB.Props.C14run"], "C03": ["TB.Props.C03frame"], "C17": ["TB.Props.C17run", "TB.Props.C17scan"], "C01": ["TB.Props.C01bytes"], "C11": ["TB.Props.C01bytes", "TB.Props.C04h", "TB.Props.C04hist"], "C02": ["TB.Props.C02run"], "C16": ["TB.Props.C16run", "TB.Props.C16total"], "C04": ["TB.Props.C04a", "TB.Props.C04c", "TB.Props.C04h", "TB.Props.C04hist"], "C15": ["TB.Props.C04a", "TB.Props.C04c"]}
 
 PROPS = {
     "C01": dict(module="TB.Props.C01", theorems=["C01_write_sound", "C01_gate", "C01_writer_cursor", "C01_run"], clauses=["c01-"],
